@@ -142,7 +142,7 @@ func runC13Case(tier string, seed uint64, idx int, keepDir string) *CaseResult {
 	sc.DailyCols = pairDailyCols(sc.Soil.N())
 	a := sc
 	var b *Scenario
-	var postB func(root string) []string
+	var postA, postB func(root string) []string
 	desc := kind
 	switch kind {
 	case "crop_classic_vs_yaml":
@@ -158,15 +158,47 @@ func runC13Case(tier string, seed uint64, idx int, keepDir string) *CaseResult {
 		for _, e := range a.Rotation {
 			files[cropParamFileName(e.Crop, e.Variety, false)] = true
 		}
+		// "generated variants": in 40 % of the converter pairs the free-text labels of the classic files carry non-ASCII
+		// letters (the numbers stay where they are, counted in characters): both runs then read these variant files
+		relabel := r.Bool(0.4)
+		variant := func(name string) []byte {
+			b, _ := os.ReadFile(filepath.Join(paramDir, name))
+			if !relabel {
+				return b
+			}
+			lines := strings.Split(string(b), "\n")
+			if len(lines) > 15 && strings.HasPrefix(lines[15], "Anfangsgewichte kg TM/ha") {
+				lines[15] = strings.Replace(lines[15], "Anfangsgewichte kg TM/ha", "Anfangsgewichte für Orga", 1)
+			}
+			return []byte(strings.Join(lines, "\n"))
+		}
+		if relabel {
+			res.Cov["converter_pairs_with_relabelled_classic_files"]++
+			postA = func(root string) []string {
+				dir := filepath.Join(root, "param_var")
+				except := map[string]bool{}
+				for f := range files {
+					except[f] = true
+				}
+				linkParamFolder(dir, except)
+				for f := range files {
+					os.WriteFile(filepath.Join(dir, f), variant(f), 0644)
+				}
+				return []string{"parameter=param_var"}
+			}
+		}
 		postB = func(root string) []string {
 			dir := filepath.Join(root, "param_conv")
 			except := map[string]bool{}
 			for f := range files {
 				except[f+".yml"] = true
+				except[f] = true
 			}
 			linkParamFolder(dir, except)
 			for f := range files {
-				if err := convertWithBinary(filepath.Join(paramDir, f), filepath.Join(dir, f+".yml")); err != nil {
+				src := filepath.Join(dir, f)
+				os.WriteFile(src, variant(f), 0644)
+				if err := convertWithBinary(src, filepath.Join(dir, f+".yml")); err != nil {
 					res.Err = err.Error()
 				}
 			}
@@ -268,7 +300,7 @@ func runC13Case(tier string, seed uint64, idx int, keepDir string) *CaseResult {
 			return res
 		}
 	}
-	runA := runPlain(a, filepath.Join(root, "A"), nil)
+	runA := runPlain(a, filepath.Join(root, "A"), postA)
 	runB := runPlain(b, filepath.Join(root, "B"), postB)
 	res.Days = runA.Days
 	if res.Err != "" {
